@@ -76,6 +76,19 @@ theorem failure_in_group_stays_in_group (o o' : Oracle) (ty : String) (p : Path)
         · exact field_local o o' f.1 f.2 _ (hagree f (by simp) hd')
       rw [this]
 
+/-- **No `@defer`, no difference.** On a plan in which no field is deferred, the defer model is exactly the
+execution mechanism of C01 (`Impl.execRoot`, proved equal to the Spec there) and starts no group: deferral
+is the *only* thing `D` adds. -/
+theorem no_defer_is_plain_execution (o : Oracle) (rootTy : String) (fields : List (FInfo × Shape))
+    (h : fieldsNoDefer fields) :
+    (D.execDeferred o rootTy fields).1.data = (Impl.execRoot o rootTy fields).1 ∧
+    (D.execDeferred o rootTy fields).1.st = (Impl.execRoot o rootTy fields).2 ∧
+    (D.execDeferred o rootTy fields).2 = [] := by
+  have hf := D_fields o rootTy true fields [] {} h
+  simp only [D.execDeferred, Impl.execRoot, hf]
+  refine ⟨trivial, trivial, ?_⟩
+  simp [D.runGroups]
+
 /-! ## the response function's counters (`deferred`, `pendingDeferred`) -/
 
 /-- `started i` = number of groups started by the time of the i-th incremental delivery (`started 0`: when
